@@ -110,12 +110,56 @@ def observerCode : List Nat := [0x8D, 0x00, 0x03, 0x8E, 0x01, 0x03, 0x8C, 0x02, 
 def trapObserverCode : List Nat := [0xE8, 0x8D, 0x00, 0x7F, 0xC8, 0xC8, 0x8D, 0x00, 0x7F, 0xEA, 0x8E, 0x00, 0x7F,
   0xA2, 0x01, 0x8C, 0x00, 0x7F, 0x00]
 
-/-- `luaapi M SPEC LOADAT ITERS TRAP | phase-1 ops | phase-2 ops => ok|error | tokens` -/
+/-- byte number `i` of the payload of a `luaapi big` binary (the generator's `bigPayloadByte`) -/
+def bigPayloadByte (i mul add : Nat) : Nat := if i == 0 then 0 else 1 + (i * mul + add) % 255
+
+/-- `luaapi big M LOADAT LEN MUL ADD coN | probe addresses | GMADDR:GMLEN => ok | tokens`: a binary with header address
+    LOADAT and a payload of LEN bytes (1 ≤ LEN ≤ 65535, byte i = `bigPayloadByte i MUL ADD`) loaded into the fresh 64K
+    machine.  The specification: `load_address` = LOADAT and `prog_len` = LEN wherever the script reads them (chunk level,
+    arrange, assert), the program counter is at the load address when arrange runs, and a cell reads as the payload
+    byte loaded there (addresses wrap at $FFFF), as zero when the payload does not reach it. -/
+def handleBigProg (req gres gout : String) : String :=
+  match req.splitOn "|" with
+  | [hd, ps, gm] =>
+    match words hd, (gm.trimAscii.toString).splitOn ":" with
+    | [_, _, m, las, lens, muls, adds, co], [gas, gls] =>
+      let parsed : Option (Nat × Nat × Nat × Nat × Nat × Nat × List Nat) := do
+        let probes ← (words ps).mapM parseHex
+        some (← parseHex las, ← lens.toNat?, ← muls.toNat?, ← adds.toNat?, ← parseHex gas, ← parseHex gls, probes)
+      match parsed with
+      | none => "bad"
+      | some (la, len, mul, add, ga, gl, probes) =>
+        let cell (a : Nat) : Nat :=
+          let off := (a % 65536 + 65536 - la) % 65536
+          if off < len then bigPayloadByte off mul add else 0
+        let vars := [toString la, toString len]
+        let want := vars ++ vars ++ [toString la] ++ vars ++ probes.map (fun a => toString (cell a)) ++
+          ["m" ++ String.join ((List.range gl).map fun i => hexB (BitVec.ofNat 8 (cell (ga + i))))]
+        let got := words gout
+        let ok := gres.trimAscii.toString == "ok" && got == want
+        let cls := s!"luaapi.big.{if len ≥ 65534 then toString len else if len ≥ 32768 then "large" else "small"}.{co}"
+        if ok then s!"agree | specok | {cls}"
+        else
+          let firstDiff := ((got.zip want).zipIdx.find? fun ((a, b), _) => a != b).map (·.2)
+          let tag := match firstDiff with
+            | some i => s!"token{i}:go={got.getD i "?"}:spec={want.getD i "?"}"
+            | none => s!"length:go={got.length}:spec={want.length}"
+          s!"DIFF api:big:{tag} | VIOL C12:api:big:{tag}@load={las}:len={len}:model={m}:{co}:{gres.trimAscii.toString} | {cls}"
+    | _, _ => "bad"
+  | _ => "bad"
+
+/-- `luaapi M SPEC LOADAT ITERS TRAP [coN] | phase-1 ops | phase-2 ops => ok|error | tokens`; `coN`: where the script
+    made the calls from (co0/absent: the main thread; co1..co4: Lua coroutines, see the generator) — the expected
+    results are the same, the API acts on the one machine from every Lua thread -/
 def handleLuaApi (line : String) : String :=
   let (req, res) := splitOnce line "=>"
   let (gres, gout) := splitOnce res "|"
+  if (words req).getD 1 "" == "big" then handleBigProg req gres gout else
   match req.splitOn "|" with
   | [hd, p1, p2] =>
+    let (hd, co) := match words hd with
+      | [a, m, spec, las, its, tr, co] => (" ".intercalate [a, m, spec, las, its, tr], co)
+      | _ => (hd, "co0")
     match words hd with
     | [_, m, spec, las, its, tr] =>
       let parsed : Option (CpuModel × Nat × Nat) := do
@@ -167,9 +211,9 @@ def handleLuaApi (line : String) : String :=
           let longCall := origin.startsWith "rl" || (origin.splitOn "+wl").length > 1
           let d := if ok then "agree" else s!"DIFF api:{tag}"
           let v := if ok then "specok"
-            else s!"VIOL C12:api:{tag}@spec={spec}:model={m}:trap={tr}" ++
+            else s!"VIOL C12:api:{tag}@spec={spec}:model={m}:trap={tr}{if co == "co0" then "" else ":" ++ co}" ++
               (if longCall then s!",C05:api-long:{tag}@spec={spec}:origin={origin}" else "")
-          s!"{d} | {v} | luaapi.{spec}.i{iters}.t{tr}"
+          s!"{d} | {v} | luaapi.{spec}.i{iters}.t{tr}{if co == "co0" then "" else "." ++ co}"
     | _ => "bad"
   | _ => "bad"
 
